@@ -177,7 +177,9 @@ pub fn c10(a: &Args) -> Report {
 
 pub fn c11_specs(tier: Tier) -> Vec<Spec> {
     let bodies: Vec<&str> = vec!["a", "a|b", "[ab]+", "(?i)a", "(?i:a)b", "(?s).", "a|bc", "é", "\\p{Greek}", "#a|#b", "[#@]c", "ab?", "(?-u:a)", "a|", "(?x) a b", "(?x) a # c\n b", "a\\#", "a\nb"];
-    let bodies: Vec<&str> = if tier == Tier::Thorough { bodies } else { bodies[..11].to_vec() };
+    let mut bodies: Vec<&str> = if tier == Tier::Thorough { bodies } else { bodies[..11].to_vec() };
+    // white space at the edges of the source is part of the subpattern
+    bodies.extend([", ", " a", "a ", " ", "\ta\t", "a\n", " |b "]);
     let users = ["(?&s)", "x(?&s)", "(?&s)x", "x(?&s)y", "(?&s)+", "(?&s)|c", "(?&s)(?&s)", "(?:(?&s))?x", "(?&s){2}y", "[xy](?&s)*z", "é(?&s)+", "«(?&s)»", "(?&s)→(?&s)x", "€€(?&s)q", r"\\(?&s)", r"\((?&s)\)", r"a\\\\(?&s)|b", r#""([^"\\]|\\(?&s))*""#];
     let mut specs = vec![];
     for b in &bodies {
